@@ -10,6 +10,7 @@ import (
 	"os"
 	"sort"
 	"strings"
+	"time"
 
 	"golang.org/x/tools/go/ssa"
 )
@@ -1120,6 +1121,11 @@ func (fr *Frame) run(b, pred *ssa.BasicBlock, st *State, stop *ssa.BasicBlock) (
 			return []arrival{{pred: pred, st: st}}
 		}
 		fr.visits[b]++
+		if fr.v.blocksRun++; fr.v.blocksRun&255 == 0 && !fr.v.deadline.IsZero() && time.Now().After(fr.v.deadline) {
+			// a time budget per function: a loop without invariant (or a path explosion) in a changed function must
+			// end as "undecided" within minutes, not stall the whole check
+			unsup("analysis of %s exceeded its time budget of %s (loop without invariant, or too many paths?)", fr.fn.Name(), fr.v.budget)
+		}
 		if fr.visits[b] > fr.v.maxVisits {
 			unsup("block %d of %s visited more than %d times (loop without invariant?)", b.Index, fr.fn.Name(), fr.v.maxVisits)
 		}
